@@ -32,6 +32,7 @@ import (
 	"math"
 	"math/rand"
 	"os"
+	"reflect"
 	"runtime"
 	"slices"
 	"sort"
@@ -347,12 +348,16 @@ func (r *replayer) sstBehaviour(beh []mbt.Step) (drift bool) {
 				next := make([]*sst.Table, len(c.tables))
 				for i, t := range c.tables {
 					doc := t.Document()
-					next[i] = sst.NewTableFromDocument(c.fs, noOwner{}, doc)
-					// information only (the checkpoint document is JSON, dkv/recovery): do binary range keys survive it?
+					// the descriptor travels through the JSON checkpoint document (dkv/recovery):
+					// re-open from what comes back, binary range keys must survive it
 					var back sst.TableDocument
-					if b, err := json.Marshal(doc); err == nil && json.Unmarshal(b, &back) == nil && back != doc {
-						r.res.Count("info_doc_json_roundtrip_changes_keys", 1)
+					if b, err := json.Marshal(doc); err == nil && json.Unmarshal(b, &back) == nil {
+						if !reflect.DeepEqual(back, doc) {
+							r.res.Count("info_doc_json_roundtrip_changes_keys", 1)
+						}
+						doc = back
 					}
+					next[i] = sst.NewTableFromDocument(c.fs, noOwner{}, doc)
 				}
 				c.alive = append(c.alive, next...)
 				c.tables = next
@@ -525,19 +530,19 @@ func (r *replayer) sstWrite(rng *rand.Rand, c *sstCase, st mbt.Step, drift *bool
 		if len(c.content[i]) == 0 {
 			if len(tables) > 1 {
 				r.violate("", "every split table holds entries", "empty table", "table %d of %d (%s) of a split run is empty: its key range [%q, %q] cannot be ordered with its neighbours",
-					i+1, len(tables), tables[i].Name(), docs[i].StartKey, docs[i].EndKey)
+					i+1, len(tables), tables[i].Name(), string(docs[i].StartKey), string(docs[i].EndKey))
 			}
 			continue
 		}
 		first, last := c.run[c.content[i][0]], c.run[c.content[i][len(c.content[i])-1]]
-		if docs[i].StartKey > string(first.key) || docs[i].EndKey < string(last.key) {
-			r.violate("", fmt.Sprintf("covers [%x, %x]", first.key, last.key), fmt.Sprintf("[%x, %x]", docs[i].StartKey, docs[i].EndKey),
+		if string(docs[i].StartKey) > string(first.key) || string(docs[i].EndKey) < string(last.key) {
+			r.violate("", fmt.Sprintf("covers [%x, %x]", first.key, last.key), fmt.Sprintf("[%x, %x]", string(docs[i].StartKey), string(docs[i].EndKey)),
 				"table %d of %d: the key range in its document does not cover its entries", i+1, len(tables))
-		} else if docs[i].StartKey != string(first.key) || docs[i].EndKey != string(last.key) {
+		} else if string(docs[i].StartKey) != string(first.key) || string(docs[i].EndKey) != string(last.key) {
 			r.res.Count("info_range_wider_than_entries", 1)
 		}
-		if i > 0 && len(c.content[i-1]) > 0 && docs[i-1].EndKey >= docs[i].StartKey {
-			r.violate("", "EndKey(prev) < StartKey(next)", fmt.Sprintf("%x >= %x", docs[i-1].EndKey, docs[i].StartKey),
+		if i > 0 && len(c.content[i-1]) > 0 && string(docs[i-1].EndKey) >= string(docs[i].StartKey) {
+			r.violate("", "EndKey(prev) < StartKey(next)", fmt.Sprintf("%x >= %x", string(docs[i-1].EndKey), string(docs[i].StartKey)),
 				"key ranges of tables %d and %d overlap or are out of order", i, i+1)
 		}
 	}
